@@ -530,9 +530,12 @@ State:
 						return out, ValidationUnknown
 					default:
 						xvi := getExtensionFieldInfo(xt).validation
-						if xvi.mi != nil {
-							xvi.mi.init()
+						if xvi.mi == nil {
+							// Not a generated message type: there is
+							// nothing to validate the item against.
+							return out, ValidationUnknown
 						}
+						xvi.mi.init()
 						states = append(states, validationState{
 							typ:  xvi.typ,
 							mi:   xvi.mi,
